@@ -252,7 +252,8 @@ Holds(name, c) ==
 KF_Merge == "C05-merge-bypasses-target"
 KfOf(name, c) == IF /\ name = "C05_PutVerifyTarget" /\ c.att # <<>> /\ LastAtt(c).reads # <<>>
                     /\ Last(LastAtt(c).reads).a = "SplitMerge" /\ c.cfg.verif = "Network"
-                    /\ LastAtt(c).reply = "Ok"
+                 \* (whatever the PUT's own reply was: what is wrong about the READ is the listed finding; an Ok that ignores
+                 \* the PUT's reply is Put_OkOnlyIfVerified's business -- selftest/mutations_putrecord.json "reply dropped")
                  THEN KF_Merge ELSE ""
 Verdicts(c) == {[clause |-> name, kf |-> KfOf(name, c)] : name \in {n \in Clauses : ~Holds(n, c)}}
 =============================================================================
